@@ -4,7 +4,7 @@ import copy
 import math
 from montepy.data_inputs.cell_modifier import CellModifierInput
 from montepy.errors import *
-from montepy.constants import DEFAULT_VERSION, rel_tol, abs_tol
+from montepy.constants import BLANK_SPACE_CONTINUE, DEFAULT_VERSION, rel_tol, abs_tol
 from montepy.input_parser import syntax_node
 from montepy.mcnp_object import MCNP_Object
 from montepy.particle import Particle
@@ -243,6 +243,10 @@ class Importance(CellModifierInput):
                             to_remove.add(other_part)
                 for removee in to_remove:
                     other_particles.remove(removee)
+                # a comment runs to the end of its line: the next entry starts a continuation line
+                lines = ret.splitlines()
+                if lines and (self._is_comment_line(lines[-1]) or "$" in lines[-1]):
+                    ret += "\n" + " " * BLANK_SPACE_CONTINUE
                 ret += self._particle_importances[particle].format()
                 particles_printed.add(particle)
             return ret
